@@ -197,7 +197,12 @@ class CHECK(Check):
                  "= Frame+Aggregate composition read from tables LIFTED from _fairness_metrics.py/_generated_metrics.py/"
                  "_make_derived_metric.py; compiled-driver correspondence with the public fairlearn.metrics functions; the argument "
                  "plumbing of _DerivedMetric.__init__/__call__ (validation steps, routing chain of **other_params, default "
-                 "sample_param_names, the __name__ read) lifted into Generated/DerivedSpec.lean and modelled in Model/Derived.lean")
+                 "sample_param_names, the __name__ read) lifted into Generated/DerivedSpec.lean and modelled in Model/Derived.lean; "
+                 "the MetricFrame accessor call of every function (Fairness.applyAgg) is computed WITH the lifted result cache "
+                 "(Generated/PopulateSrc.lean through Model/AggregateCache.lean: accessor defaults, cache slot, the (method, errors) "
+                 "the slot was computed with, the lifted _extract_result) and proved equal to the hard-coded call "
+                 "(applyAgg_lifted_eq_model, run_lifted_eq_model, src_accessor_calls); GEN_SPEC of this file is compared with the "
+                 "lifted METRICS_SPEC on every run")
     level_text = ("Theorems (all datasets, any group structure incl. single-member groups and empty denominators, any positive "
                   "weights): selection_rate/TPR/FPR cells equal the direct weighted ratios (TPR/FPR := 0 on an empty "
                   "denominator); the values the aggregates see are exactly {rate(g) : g observed group} and overall = rate(all "
